@@ -38,25 +38,25 @@
         //@ before (file_id,bytes)=<
         //@ tag tags.no_second_dispatch.file_id C13
             proof { assert(!seen.contains(29u16)); seen = seen.insert(29u16) ; }
-        //@ before returnErr(zvt_builder::ZVTError::DuplicateTag(zvt_builder::Tag(29u16)
+        //@ before returnErr(zvt_builder::ZVTError::DuplicateTag(
         //@ tag tags.duplicate_error_is_true.file_id C13
             proof { assert(seen.contains(29u16)) ; }
         //@ before (file_offset,bytes)=<
         //@ tag tags.no_second_dispatch.file_offset C13
             proof { assert(!seen.contains(30u16)); seen = seen.insert(30u16) ; }
-        //@ before returnErr(zvt_builder::ZVTError::DuplicateTag(zvt_builder::Tag(30u16)
+        //@ before returnErr(zvt_builder::ZVTError::DuplicateTag(
         //@ tag tags.duplicate_error_is_true.file_offset C13
             proof { assert(seen.contains(30u16)) ; }
         //@ before (file_size,bytes)=<
         //@ tag tags.no_second_dispatch.file_size C13
             proof { assert(!seen.contains(7936u16)); seen = seen.insert(7936u16) ; }
-        //@ before returnErr(zvt_builder::ZVTError::DuplicateTag(zvt_builder::Tag(7936u16)
+        //@ before returnErr(zvt_builder::ZVTError::DuplicateTag(
         //@ tag tags.duplicate_error_is_true.file_size C13
             proof { assert(seen.contains(7936u16)) ; }
         //@ before (payload,bytes)=<
         //@ tag tags.no_second_dispatch.payload C13
             proof { assert(!seen.contains(28u16)); seen = seen.insert(28u16) ; }
-        //@ before returnErr(zvt_builder::ZVTError::DuplicateTag(zvt_builder::Tag(28u16)
+        //@ before returnErr(zvt_builder::ZVTError::DuplicateTag(
         //@ tag tags.duplicate_error_is_true.payload C13
             proof { assert(seen.contains(28u16)) ; }
         //@ before letmutas_vec
@@ -121,7 +121,7 @@
         //@ before (file,bytes)=<
         //@ tag tags.no_second_dispatch.file C13
             proof { assert(!seen.contains(45u16)); seen = seen.insert(45u16) ; }
-        //@ before returnErr(zvt_builder::ZVTError::DuplicateTag(zvt_builder::Tag(45u16)
+        //@ before returnErr(zvt_builder::ZVTError::DuplicateTag(
         //@ tag tags.duplicate_error_is_true.file C13
             proof { assert(seen.contains(45u16)) ; }
         //@ before letmutas_vec
@@ -190,7 +190,7 @@
         //@ after (files,bytes)=<
         //@ tag tags.stop C13
             proof { if curr_len == bytes@.len() { crate::frame::lemma_tail_same_len(bytes@, b_pre); } }
-        //@ before returnErr(zvt_builder::ZVTError::DuplicateTag(zvt_builder::Tag(45u16)
+        //@ before returnErr(zvt_builder::ZVTError::DuplicateTag(
         //@ tag tags.duplicate_error_is_true.files C13
             proof { assert(seen.contains(45u16)) ; }
         //@ before letmutas_vec
@@ -314,13 +314,13 @@
         //@ before (password,bytes)=<
         //@ tag tags.no_second_dispatch.password C13
             proof { assert(!seen.contains(65344u16)); seen = seen.insert(65344u16) ; }
-        //@ before returnErr(zvt_builder::ZVTError::DuplicateTag(zvt_builder::Tag(65344u16)
+        //@ before returnErr(zvt_builder::ZVTError::DuplicateTag(
         //@ tag tags.duplicate_error_is_true.password C13
             proof { assert(seen.contains(65344u16)) ; }
         //@ before (host_configuration_data,bytes)=<
         //@ tag tags.no_second_dispatch.host_configuration_data C13
             proof { assert(!seen.contains(65345u16)); seen = seen.insert(65345u16) ; }
-        //@ before returnErr(zvt_builder::ZVTError::DuplicateTag(zvt_builder::Tag(65345u16)
+        //@ before returnErr(zvt_builder::ZVTError::DuplicateTag(
         //@ tag tags.duplicate_error_is_true.host_configuration_data C13
             proof { assert(seen.contains(65345u16)) ; }
         //@ before letmutas_vec
@@ -385,7 +385,7 @@
         //@ before (system_information,bytes)=<
         //@ tag tags.no_second_dispatch.system_information C13
             proof { assert(!seen.contains(228u16)); seen = seen.insert(228u16) ; }
-        //@ before returnErr(zvt_builder::ZVTError::DuplicateTag(zvt_builder::Tag(228u16)
+        //@ before returnErr(zvt_builder::ZVTError::DuplicateTag(
         //@ tag tags.duplicate_error_is_true.system_information C13
             proof { assert(seen.contains(228u16)) ; }
         //@ before letmutas_vec
